@@ -87,6 +87,7 @@ def main(argv=None):
         for n, i in harness.TASKS.items():
             if i["prop"] != a.prop and re.match(tre, n) and ((tier == "thorough" and i["tier"] in ("quick", "thorough")) or i["tier"] == "quick"):
                 dep_filter.setdefault(n, []).append(cre)
+    dead_deps = [tre for tre, cre in meta.PROPS.get(a.prop, {}).get("depends", []) if not any(re.match(tre, n) for n in harness.TASKS)]
     dep_filter = {n: "|".join("(?:%s)" % c for c in cs) for n, cs in dep_filter.items()}
     names = names + sorted(dep_filter)
     if a.only:
@@ -104,13 +105,14 @@ def main(argv=None):
             outs = list(pool.imap_unordered(_worker, work, chunksize=1))
     outs.sort(key=lambda o: o["task"])
 
+    dead_dep_errors = ["dependency pattern %r matches no task" % d for d in dead_deps]
     known = [k for k in load_known() if k.get("property") == a.prop or any(k.get("obligation", "").startswith(n + "/") for n in dep_filter)]
     known_by_ob = {k["obligation"]: k for k in known}
     results = []
     functions = {}
     lib_used, trusted = set(), set()
     samples = []
-    broken, undecided = [], []
+    broken, undecided = list(dead_dep_errors), []
     for o in outs:
         if o["status"] == "error":
             broken.append("%s: %s" % (o["task"], o.get("detail")))
